@@ -119,7 +119,7 @@ TypeStr(T) ==
     [] T.k = "bytes" -> "bytes"
     [] T.k = "var" -> "var * " \o TypeStr(T.x)
     [] T.k = "reg" -> ToString(T.n) \o " * " \o TypeStr(T.x)
-    [] T.k = "opt" -> IF T.x.k \in {"var", "reg"} THEN "option[" \o TypeStr(T.x) \o "]"
+    [] T.k = "opt" -> IF T.x.k \in {"var", "reg", "str", "bytes"} THEN "option[" \o TypeStr(T.x) \o "]"
                       ELSE "?" \o TypeStr(T.x)
     [] T.k = "rec" ->
          LET RECURSIVE items(_)
@@ -508,9 +508,16 @@ VReduce(v, T, r, axis, mask, keepdims) ==
 AllSortArgs == [asc : {0, 1}, stable : {0, 1}, arg : {0, 1}]
 \* items are [i |-> position in the group, v |-> value]; the library's order: NaN first (both
 \* directions), then the numbers ascending or descending, missing values last; stable.
+\* strings are compared as units, lexicographically by (unsigned) bytes, a proper prefix first
+RECURSIVE LexLess(_, _)
+LexLess(x, y) == IF y = <<>> THEN FALSE
+                 ELSE IF x = <<>> THEN TRUE
+                 ELSE IF Head(x) # Head(y) THEN Head(x) < Head(y)
+                 ELSE LexLess(Tail(x), Tail(y))
 Before(a, b, asc) ==      \* TRUE iff a must come strictly before b
   CASE a.v.t = "none" -> FALSE
     [] b.v.t = "none" -> TRUE
+    [] a.v.t = "str" -> IF asc = 1 THEN LexLess(a.v.b, b.v.b) ELSE LexLess(b.v.b, a.v.b)
     [] a.v.t = "nan" -> b.v.t # "nan"
     [] b.v.t = "nan" -> FALSE
     [] OTHER -> IF asc = 1 THEN a.v.x < b.v.x ELSE a.v.x > b.v.x
@@ -557,10 +564,16 @@ HasAnyOpt(T) == LET RECURSIVE has(_)
                                 [] U.k \in {"var", "reg"} -> has(U.x)
                                 [] OTHER -> FALSE
                 IN has(T)
+HasStrT(T) == LET RECURSIVE has(_)
+                   has(U) == CASE U.k \in {"str", "bytes"} -> TRUE
+                               [] U.k \in {"var", "reg", "opt"} -> has(U.x)
+                               [] OTHER -> FALSE
+               IN has(T)
 VSort(v, T, axis, asc, arg) ==
   LET D == PureDepthE(T)
       negaxis == IF axis >= 0 THEN D - axis ELSE -axis IN
   IF HasRecOrUnion(T) THEN Unspec
+  ELSE IF HasStrT(T) /\ negaxis # 1 THEN Unspec          \* "array with strings can only be sorted with axis=-1"
   ELSE IF negaxis < 1 \/ negaxis > D THEN Err
   ELSE IF negaxis >= 2 /\ HasOptList(T) THEN Unspec     \* missing lists inside a non-innermost group: not modelled
   ELSE IF negaxis >= 2 /\ arg = 1 /\ HasAnyOpt(T) THEN Unspec   \* position of a missing leaf in a column: unspecified
